@@ -280,6 +280,14 @@ func (p *rawPeer) ack(upTo uint64) error {
 	return err
 }
 
+// nack asks for a re-send from the given sequence number, like a replica that saw a gap
+func (p *rawPeer) nack(from uint64) error {
+	ctx, cancel := context.WithTimeout(metadata.NewOutgoingContext(context.Background(), metadata.Pairs("session-id", p.sid)), 10*time.Second)
+	defer cancel()
+	_, err := p.cl.NegativeAcknowledge(ctx, &rproto.Nack{MissingFromSequence: from})
+	return err
+}
+
 func drain(st rproto.WALReplicationService_StreamWALClient) {
 	for {
 		if _, err := st.Recv(); err != nil {
